@@ -389,6 +389,12 @@ RunPar(H, w) ==
 HRun(H, w) == [H EXCEPT !.par = RunPar(H, w)]
 IsE2E(H, w) == H.par.min < H.par.max /\ SentOfRun(H, w)[1].ttl = H.par.max
 
+\* C11 (allocators): ranges returned to concurrent callers are pairwise disjoint modulo 65536, echo ids distinct
+C11_alloc(H) ==
+    LET a == H.got
+        ids(i) == {(a[i].base + t) % 65536 : t \in 1..a[i].m}
+    IN \A i, j \in DOMAIN a : i # j => (ids(i) \cap ids(j) = {} /\ a[i].echo # a[j].echo)
+
 \* C15: all-or-error with exact counts
 C15_run(H) ==
     LET ff == FiredFailing(H) IN
@@ -418,4 +424,31 @@ C19_run(H) ==
                          [] ex.kind = "syn" -> s[j].p.kind = "tcp" /\ s[j].p.flags = SYN
                          [] ex.kind = "sack" -> s[j].p.kind = "tcp" /\ HasFlag(s[j].p, ACK) /\ ~HasFlag(s[j].p, SYN)
                          [] OTHER -> FALSE
+
+\* C20: TCP method policy (expect20 = TcpPolicy!Code for the scenario's method / capability / injected failure)
+IsSynProbe(p) == p.kind = "tcp" /\ p.flags = SYN
+IsSackProbe(p) == p.kind = "tcp" /\ HasFlag(p, ACK) /\ ~HasFlag(p, SYN)
+C20_run(H) ==
+    LET ex == H.par.expect20
+        W == WireRuns(H)
+        TrW == {w \in W : ~IsE2E(H, w)}                                   \* wire runs of the traceroute query
+        SynTr == {w \in TrW : IsSynProbe(SentOfRun(H, w)[1].p)}
+        SackTr == {w \in TrW : IsSackProbe(SentOfRun(H, w)[1].p)}
+        E2E == {w \in W : IsE2E(H, w)}
+        Sinks == Cardinality({i \in DOMAIN H.hlog : H.hlog[i].ev = "Open" /\ H.hlog[i].kind = "sink"})
+        \* a SYN attempt of the traceroute query happened (its first write may have been the injected failure)
+        SynAttempted == SynTr # {} \/ (H.par.e2e = 0 /\ Sinks >= 2)
+    IN /\ H.out.panic = ""
+       /\ \A w \in E2E : \A j \in DOMAIN SentOfRun(H, w) : IsSynProbe(SentOfRun(H, w)[j].p)     \* e2e probes use SYN whatever the method
+       /\ (ex.method = "syn" => H.out.accepts = 0 /\ SackTr = {})                                  \* syn: no TCP connection is ever opened
+       /\ (ex.method = "sack" => ~SynAttempted)                                                     \* sack: never masked by a SYN trace
+       /\ (ex.fallback <=> (ex.method = "prefer_sack" /\ SynAttempted))                               \* SYN path exactly when SACK is unavailable
+       /\ CASE ex.out = "sack" -> /\ H.out.ok /\ Len(H.out.runs) = 1 /\ SackTr # {}
+                                  /\ \E w \in SackTr : SentOfRun(H, w)[1].p.sport = H.out.runs[1].sport
+            [] ex.out = "syn"  -> /\ H.out.ok /\ Len(H.out.runs) = 1
+                                  /\ \E w \in SynTr : SentOfRun(H, w)[1].p.sport = H.out.runs[1].sport
+            [] ex.out = "error" -> /\ ~H.out.ok /\ ~H.out.has_result
+                                   /\ (ex.notsup => H.out.err.notsupported)
+                                   /\ \A i \in DOMAIN H.flt : H.flt[i].class = "fatal" => HasCause(H.out, H.flt[i].op)
+            [] OTHER -> FALSE
 =============================================================================
